@@ -996,12 +996,16 @@ func (c *Conn) handleBdat(arg string) {
 
 		c.dataResult = make(chan error, 1)
 
+		// The delivery may outlive this transaction (RSET, failed chunk), so
+		// it must not look at the per-transaction fields of c when it ends.
+		dataResult, bdatStatus, recipients := c.dataResult, c.bdatStatus, c.recipients
+
 		go func() {
 			defer func() {
 				if err := recover(); err != nil {
-					c.handlePanic(err, c.bdatStatus)
+					c.handlePanic(err, bdatStatus)
 
-					c.dataResult <- errPanic
+					dataResult <- errPanic
 					r.CloseWithError(errPanic)
 				}
 			}()
@@ -1013,15 +1017,15 @@ func (c *Conn) handleBdat(arg string) {
 				lmtpSession, ok := c.Session().(LMTPSession)
 				if !ok {
 					err = c.Session().Data(r)
-					for _, rcpt := range c.recipients {
-						c.bdatStatus.SetStatus(rcpt, err)
+					for _, rcpt := range recipients {
+						bdatStatus.SetStatus(rcpt, err)
 					}
 				} else {
-					err = lmtpSession.LMTPData(r, c.bdatStatus)
+					err = lmtpSession.LMTPData(r, bdatStatus)
 				}
 			}
 
-			c.dataResult <- err
+			dataResult <- err
 			r.CloseWithError(err)
 		}()
 	}
